@@ -7,7 +7,7 @@
 Require Import Cirbo.Model.Base Cirbo.Model.Gate Cirbo.Model.Den Cirbo.Model.Circuit Cirbo.Model.Connect
         Cirbo.Model.Eval Cirbo.Model.Sem Cirbo.Model.History Cirbo.Model.WF.
 Require Import Cirbo.Proofs.WFEmplace Cirbo.Proofs.WFStep Cirbo.Proofs.SemExt Cirbo.Proofs.SemRenameGate
-        Cirbo.Proofs.SemReplaceInputs Cirbo.Proofs.SemRemove Cirbo.Proofs.SemReplaceSub Cirbo.Proofs.SemEvaluate2
+        Cirbo.Proofs.SemReplaceInputs Cirbo.Proofs.SemRemove Cirbo.Proofs.SemReplaceSub Cirbo.Proofs.SemEvaluate2 Cirbo.Proofs.SemCex
         Cirbo.Proofs.C19Final.
 
 (* ================= rename_gate ================= *)
@@ -190,6 +190,20 @@ Theorem C19_replace_subcircuit_errors : forall c sub imap omap fresh e,
   In e [ReplaceSubcircuitError; CreateBlockError; DeleteBlockError; CircuitValidationError;
         CircuitGateAlreadyExistsError; CircuitGateIsAbsentError; GateDoesntExistError].
 Proof. exact replace_subcircuit_errors'. Qed.
+
+(* arity_ok c cannot be dropped: the host has a gate without value (unary AND) in the cut, the
+   replaced slice g = NOT y ignores it, the replacement g = OR(NOT y, AND(bad, NOT bad)) computes
+   the same Boolean function but reads it; all other hypotheses hold and the output g, which had
+   the value False, has no value afterwards (evaluation raises TypeError) *)
+Theorem C19_replace_subcircuit_arity_needed :
+  Inv cex_rs_host /\ Inv cex_rs_sub /\ ~ arity_ok cex_rs_host /\
+  (forall b, (forall k, In k (dkeys cex_rs_imap) ->
+                Eval cex_rs_host cex_rs_a k (aval b (ren_all (cex_rs_imap ++ cex_rs_omap) k))) ->
+             forall k v, In k (dkeys cex_rs_omap) -> Eval cex_rs_host cex_rs_a k v ->
+                         Eval cex_rs_sub b (ren_all (cex_rs_imap ++ cex_rs_omap) k) v) /\
+  exists c', replace_subcircuit cex_rs_host cex_rs_sub cex_rs_imap cex_rs_omap "f" = Ok c' /\
+    Eval cex_rs_host cex_rs_a "g" F /\ forall v, ~ Eval c' cex_rs_a "g" v.
+Proof. exact replace_subcircuit_bad_arity_loses_value. Qed.
 
 (* non-vacuity: host  out = OR(NOT(AND(x,y)), x), the slice {AND, NOT} between the cut {x, y} and
    the gate h is replaced by h = NAND(x,y); all hypotheses of the semantic theorems hold *)
